@@ -128,3 +128,14 @@ W void w_readonly_proxy(int32_t a, unsigned idx, Hist* h) {
   h->calls_before = c0; h->calls_after = arena.calls; h->ok_mask = isn ? 1 : 0; h->frees = unsigned(v);
   observe_arr(doc, h); h->e[7] = int32_t(n + s);
 }
+// ---- copyArray (C13): document [a,b,c] into a C array of capacity `cap` (symbolic, <= 4) inside guard elements;
+// a string element into char[4]; a C array into a document
+W size_t w_copyarray_out(int32_t a, int32_t b, int32_t c, size_t cap, int32_t* dst /* 6 ints, dst[1..4] is the destination */) {
+  arena.reset(); JsonDocument doc(&arena); doc.add(a); doc.add(b); doc.add(c);
+  return copyArray(doc.as<JsonArrayConst>(), dst + 1, cap);
+}
+W size_t w_copyarray_str(const char* s, size_t n, char* guarded /* 6 chars, [1..4] is char dst[4] */) {
+  arena.reset(); JsonDocument doc(&arena); doc.set(JsonString(s, n, JsonString::Copied));
+  char tmp[4]; size_t r = copyArray(doc.as<JsonVariantConst>(), tmp); for (int i = 0; i < 4; i++) guarded[1 + i] = tmp[i]; return r;
+}
+W unsigned w_copyarray_in(int32_t a, int32_t b, Hist* h) { arena.reset(); JsonDocument doc(&arena); int32_t src[2] = {a, b}; bool ok = copyArray(src, doc); observe_arr(doc, h); return ok; }
